@@ -220,7 +220,8 @@ class Template:
         self.module = []             # (name, tag) module-level assignments
         self.body = []
         self.lib_defs = ["libdef"]   # defs of /lib.html
-        self.enable_loop = True
+        self.enable_loop = True      # is the loop context enabled for this template (constructor flag or <%page>)
+        self.page_enable_loop = False   # <%page enable_loop="True"/>
 
     def wrappers(self):
         """callee defs used by Call nodes: name -> (args passed to body, def names invoked)"""
@@ -238,8 +239,13 @@ class Template:
 
     def src(self):
         out = []
-        if self.page_args:
-            out.append("<%%page args=\"%s\"/>\n" % ", ".join("%s=M__(%r)" % (n, t) if t is not None else n for n, t in self.page_args))
+        if self.page_args or self.page_enable_loop:
+            attrs = ""
+            if self.page_enable_loop:
+                attrs += " enable_loop=\"True\""
+            if self.page_args:
+                attrs += " args=\"%s\"" % ", ".join("%s=M__(%r)" % (n, t) if t is not None else n for n, t in self.page_args)
+            out.append("<%%page%s/>\n" % attrs)
         if self.imports or self.import_star:
             out.append("<%%namespace file=\"/lib.html\" import=\"%s\"/>\n" % ("*" if self.import_star else ", ".join(self.imports)))
         for n in self.ns_names:
